@@ -55,7 +55,8 @@ def brute(alphabet, prefix, patterns, just_prefix, n, proper=False):
 
 
 class WC(CombinatorialClass[W]):
-    def __init__(self, prefix, patterns, alphabet, just_prefix=False, stats=(), proper=False, right=None, flags=""):
+    def __init__(self, prefix, patterns, alphabet, just_prefix=False, stats=(), proper=False, right=None, flags="",
+                 lazymin=False):
         # right: None, or a second word class; then this class is the set of *pairs*
         # u|v (u in the class described by the other fields, v in `right`, '|' a separator
         # counted as one letter), i.e. a product of two non-trivial factors
@@ -77,6 +78,9 @@ class WC(CombinatorialClass[W]):
         # alphabet, counted by no statistic): m copies of every word.  Only the Unflag rule
         # applies to such a class; its backward map has m pre-images per word.
         self.flags = "".join(sorted(set(flags or ""))) if (right is None and not self.just_prefix) else ""
+        # lazymin: minimum_size_of_object reports only 1 (or 0) - a valid lower bound, which the
+        # library's docstring allows ("you must at least return 1") - instead of the exact minimum
+        self.lazymin = bool(lazymin) and not self.just_prefix
 
     # -- required by the engine
     def _bad(self, word):
@@ -96,7 +100,7 @@ class WC(CombinatorialClass[W]):
 
     def _key(self):
         return (self.alphabet, self.prefix, self.patterns, self.just_prefix, self.stats, self.proper,
-                None if self.right is None else self.right._key(), self.flags)
+                None if self.right is None else self.right._key(), self.flags, self.lazymin)
 
     def __eq__(self, other):
         if not isinstance(other, WC):
@@ -111,7 +115,7 @@ class WC(CombinatorialClass[W]):
                 f"{''.join(self.alphabet)!r},{self.just_prefix},{list(self.stats)!r}"
                 f"{',proper' if self.proper else ''}"
                 f"{'' if self.right is None else ',right=' + repr(self.right)}"
-                f"{',flags=' + repr(self.flags) if self.flags else ''})")
+                f"{',flags=' + repr(self.flags) if self.flags else ''}{',lazymin' if self.lazymin else ''})")
 
     def __str__(self):
         st = " " + ",".join(f"{k}=#{v}" for k, v in self.stats) if self.stats else ""
@@ -130,7 +134,7 @@ class WC(CombinatorialClass[W]):
                 "stats": [list(s) for s in self.stats], "bytes": isinstance(self, WCB),
                 "proper": self.proper,
                 "hash": "coarse" if isinstance(self, _CoarseHash) else None,
-                "flags": self.flags,
+                "flags": self.flags, "lazymin": self.lazymin,
                 "right": None if self.right is None else self.right.descriptor()}
 
     @staticmethod
@@ -142,14 +146,16 @@ class WC(CombinatorialClass[W]):
         if right is not None:
             right = WC.from_descriptor(dict(right, bytes=bool(d.get("bytes")), hash=d.get("hash")))
         return cls(d["prefix"], d["patterns"], d["alphabet"], d["just_prefix"],
-                   [tuple(s) for s in d["stats"]], d.get("proper", False), right, d.get("flags") or "")
+                   [tuple(s) for s in d["stats"]], d.get("proper", False), right, d.get("flags") or "",
+                   bool(d.get("lazymin")))
 
     def to_jsonable(self):
         d = super().to_jsonable()
         d.update(prefix=str(self.prefix), patterns=[str(p) for p in self.patterns],
                  alphabet=list(self.alphabet), just_prefix=int(self.just_prefix),
                  stats=[list(s) for s in self.stats], proper=int(self.proper),
-                 right=None if self.right is None else self.right.to_jsonable(), flags=self.flags)
+                 right=None if self.right is None else self.right.to_jsonable(), flags=self.flags,
+                 lazymin=int(self.lazymin))
         return d
 
     @classmethod
@@ -158,7 +164,8 @@ class WC(CombinatorialClass[W]):
         if right is not None:
             right = cls.from_dict(right)
         return cls(d["prefix"], d["patterns"], d["alphabet"], bool(d["just_prefix"]),
-                   [tuple(s) for s in d["stats"]], bool(d.get("proper", 0)), right, d.get("flags") or "")
+                   [tuple(s) for s in d["stats"]], bool(d.get("proper", 0)), right, d.get("flags") or "",
+                   bool(d.get("lazymin", 0)))
 
     # -- counting support
     @property
@@ -197,8 +204,8 @@ class WC(CombinatorialClass[W]):
     def minimum_size_of_object(self):
         own = len(self.prefix) + (1 if self.proper else 0) + (1 if self.flags else 0)
         if self.right is not None:
-            return own + 1 + self.right.minimum_size_of_object()
-        return own
+            own = own + 1 + self.right.minimum_size_of_object()
+        return min(own, 1) if self.lazymin else own
 
     def _all_objects(self, n):
         if self.flags:
@@ -228,7 +235,7 @@ class WC(CombinatorialClass[W]):
     def with_(self, **kw):
         d = dict(prefix=self.prefix, patterns=self.patterns, alphabet=self.alphabet,
                  just_prefix=self.just_prefix, stats=self.stats, proper=self.proper, right=self.right,
-                 flags=self.flags)
+                 flags=self.flags, lazymin=self.lazymin)
         d.update(kw)
         if d["just_prefix"]:
             d["proper"] = False
@@ -242,14 +249,15 @@ class WCB(WC):
         return json.dumps([str(self.prefix), [str(p) for p in self.patterns],
                            "".join(self.alphabet), self.just_prefix,
                            [list(s) for s in self.stats], self.proper,
-                           None if self.right is None else self.right.to_bytes().decode(), self.flags]).encode()
+                           None if self.right is None else self.right.to_bytes().decode(), self.flags,
+                           self.lazymin]).encode()
 
     @classmethod
     def from_bytes(cls, b):
-        p, pats, al, jp, st, pr, right, flags = json.loads(b.decode())
+        p, pats, al, jp, st, pr, right, flags, lazymin = json.loads(b.decode())
         if right is not None:
             right = cls.from_bytes(right.encode())
-        return cls(p, pats, al, jp, [tuple(s) for s in st], pr, right, flags)
+        return cls(p, pats, al, jp, [tuple(s) for s in st], pr, right, flags, lazymin)
 
 
 class _CoarseHash:
@@ -748,6 +756,16 @@ class ExpandFactory(StrategyFactory[WC]):
 
             yield Rule(strat, c)
             yield Rule(RemoveFront(drop=self.drop), c)  # applies only to some classes
+            return
+        if self.mode == 5:
+            # the class's own strategy, and for the class with the prefix one letter shorter a
+            # rule that nothing else in the pack produces (a two-step expansion on another letter):
+            # that rule can be recomputed only by replaying the factory on this child
+            yield strat
+            if c.prefix and not c.just_prefix and not c.proper and len(c.alphabet) >= 2:
+                other = c.with_(prefix=c.prefix[:-1], proper=False)
+                which = (c.alphabet.index(c.prefix[-1]) + 1) % len(c.alphabet)
+                yield ExpandTwice(which=which, drop=self.drop)(other)
             return
         if self.mode == 4 and c.prefix and not c.just_prefix:
             # the rule about the other class comes first, the class's own strategy after it
